@@ -165,12 +165,11 @@ def body(case, rec):
         err = abs(val - ref) / abs(ref)
         rec.metric('relerr_%s' % ('closed' if tol == 1e-5 else 'poly'), err, cj['_elem'])
         if err > tol:
-            hx, ht = x_int[1] - x_int[0], t_int[1] - t_int[0]
-            at_corner = any(abs(x_int[0] - bq) < 1e-12 or abs(x_int[1] - bq) < 1e-12 for bq in g.breaks)
-            if tol == 1e-6 and err <= 1e-5 and hx * hx / ht > 16 and t_int[0] == 0.0 and at_corner:
+            reentrant = dom == 'LShape' and (x_int[0] == 0.0 or x_int[1] == float(g.L))
+            if tol == 1e-6 and err <= 1e-5 and reentrant and t_int[1] <= (1.0 / 64) * (1 + 1e-12):
                 # non-constant datum, within the 1e-5 of the statement but above the 1e-6 of the quantifier, on an element
-                # of aspect in (16, 32] that starts at t = 0 next to a corner of the domain (known finding K6)
-                rec.violation(B('value_nonconstant_above_1e-6/aspect_16_32_at_t0_next_to_corner'),
+                # that touches the re-entrant corner of the L-shape and ends at or before t = 1/64 (known finding K6)
+                rec.violation(B('value_nonconstant_above_1e-6/at_reentrant_corner_before_t_1_64'),
                               {'linform': val, 'reference': ref, 'rel_err': err, 'tolerance': tol, 'elem': [t_int, x_int]}, cj)
             else:
                 rec.violation(B('value/%s' % k), {'linform': val, 'reference': ref, 'rel_err': err, 'tolerance': tol}, cj)
